@@ -262,10 +262,45 @@ pub(crate) fn c06_history<S: SubjApi>(nops: usize) {
 
 // ------------------------------------------------------------------ C12
 
+thread_local! {
+  static PEEKED: RefCell<Option<Val>> = RefCell::new(None);
+}
+
+/// fires its nested action on the second item it receives (the first one is the
+/// BehaviorSubject's initial value, delivered during subscription)
+pub struct SecondObs<N: FnOnce()> {
+  probe: Probe,
+  calls: u32,
+  nested: Option<N>,
+}
+impl<N: FnOnce()> Observer<Val, Val> for SecondObs<N> {
+  fn next(&mut self, v: Val) {
+    self.calls += 1;
+    if self.calls == 2 {
+      if let Some(n) = self.nested.take() {
+        n();
+      }
+    }
+    Observer::<Val, Val>::next(&mut self.probe, v)
+  }
+  fn error(self, e: Val) {
+    Observer::<Val, Val>::error(self.probe, e)
+  }
+  fn complete(self) {
+    Observer::<Val, Val>::complete(self.probe)
+  }
+  fn is_finished(&self) -> bool {
+    Observer::<Val, Val>::is_finished(&self.probe)
+  }
+}
+
 pub(crate) trait BehApi: Clone + 'static {
   fn name() -> &'static str;
   fn new(v: Val) -> Self;
   fn sub(&self, p: Probe) -> Unsub;
+  /// subscriber `p` which, at the first item after its initial value, peeks (result stored
+  /// for the harness) and subscribes `j` to a clone
+  fn sub_nesting(&self, p: Probe, j: Probe) -> Unsub;
   fn b_next(&mut self, v: Val);
   fn b_next_by_plus(&mut self, d: Val);
   fn b_peek(&self) -> Val;
@@ -284,6 +319,16 @@ macro_rules! impl_beh_api {
       }
       fn sub(&self, p: Probe) -> Unsub {
         let u = self.clone().actual_subscribe(p);
+        Box::new(move || u.unsubscribe())
+      }
+      fn sub_nesting(&self, p: Probe, j: Probe) -> Unsub {
+        let me = self.clone();
+        let n = move || {
+          let seen = Behavior::<Val, Val>::peek(&me);
+          PEEKED.with(|x| *x.borrow_mut() = Some(seen));
+          let _ = me.actual_subscribe(j);
+        };
+        let u = self.clone().actual_subscribe(SecondObs { probe: p, calls: 0, nested: Some(n) });
         Box::new(move || u.unsubscribe())
       }
       fn b_next(&mut self, v: Val) {
@@ -319,36 +364,58 @@ pub(crate) fn c12_history<B: BehApi>(nops: usize) {
   let mut unsubs: Vec<Option<Unsub>> = (0..NS).map(|_| None).collect();
   let mut want: Vec<Vec<Ev>> = vec![vec![]; NS];
   let mut done = false;
+  let mut armed: Option<(usize, usize)> = None; // (host, dependant)
+  PEEKED.with(|x| *x.borrow_mut() = None);
   e::note(B::name().to_string());
   for _ in 0..nops {
     let which = e::choose(clones.len() as u32) as usize;
-    let op = e::choose(8);
+    let op = e::choose(9);
     match op {
       0 | 1 => {
         let v = Val::var();
         if op == 0 {
           e::note(format!("c{}.next({})", which, v.show()));
           clones[which].b_next(v.clone());
-          if !done {
-            cur = v;
-          } else {
-            // after the terminal the property says nothing about the stored value
-            e::prune();
-          }
+          // "the most recent value passed to any clone": also after a terminal
+          cur = v;
         } else {
           e::note(format!("c{}.next_by(+{})", which, v.show()));
           clones[which].b_next_by_plus(v.clone());
-          if !done {
-            cur = model::plus(&cur, &v);
-          } else {
-            e::prune();
+          cur = model::plus(&cur, &v);
+        }
+        if !done {
+          for i in 0..NS {
+            if active[i] {
+              want[i].push(Ev::Next(cur.clone()));
+            }
+          }
+          if let Some((host, dep)) = armed {
+            if active[host] {
+              // the host's callback peeked and subscribed `dep` during this emission
+              armed = None;
+              let seen = PEEKED.with(|x| x.borrow_mut().take());
+              match seen {
+                Some(p) => e::check(p.eq_t(&cur), &format!("{}/peek-inside-callback", B::name()), || format!("peek() from inside the callback delivering {} returned {}", cur.show(), p.show())),
+                None => e::fail(&format!("{}/nested-action-not-run", B::name()), || "the subscriber's callback did not run".to_string()),
+              }
+              // joined during the emission: first the current value (the one being delivered), then all later ones
+              want[dep].push(Ev::Next(cur.clone()));
+              active[dep] = true;
+            }
           }
         }
-        for i in 0..NS {
-          if active[i] {
-            want[i].push(Ev::Next(cur.clone()));
-          }
+      }
+      8 => {
+        if used + 2 > NS || done || armed.is_some() {
+          e::prune();
         }
+        let (i, j) = (used, used + 1);
+        used += 2;
+        e::note(format!("c{}.subscribe s{} (peeks and subscribes s{} from inside its next callback)", which, i, j));
+        unsubs[i] = Some(clones[which].sub_nesting(probes[i], probes[j]));
+        active[i] = true;
+        want[i].push(Ev::Next(cur.clone()));
+        armed = Some((i, j));
       }
       2 => {
         if clones.len() >= 3 {
@@ -379,13 +446,16 @@ pub(crate) fn c12_history<B: BehApi>(nops: usize) {
         (unsubs[i].take().unwrap())();
         probes[i].silence();
         active[i] = false;
+        if let Some((host, _)) = armed {
+          if host == i {
+            armed = None;
+          }
+        }
       }
       5 => {
         let p = clones[which].b_peek();
         e::note(format!("c{}.peek() = {}", which, p.show()));
-        if !done {
-          e::check(p.eq_t(&cur), &format!("{}/peek", B::name()), || format!("peek() = {} but the most recent value is {}", p.show(), cur.show()));
-        }
+        e::check(p.eq_t(&cur), &format!("{}/peek", B::name()), || format!("peek() = {} but the most recent value is {}", p.show(), cur.show()));
       }
       6 | _ => {
         if done {
